@@ -81,10 +81,11 @@ def tokens_to_string(tokens):
         # filling space between tokens
         line += ' '*(token.index - shift - len(line))
 
-        # add token
-        line += token.value
+        # add token as it was written (the lexer decodes the value of strings and variables)
+        text = getattr(token.value, 'raw', None) or token.value
+        line += text
 
-        last_pos = token.index + len(token.value)
+        last_pos = token.index + len(text)
 
     # last line
     content += line
